@@ -80,13 +80,35 @@ def gen_inlines(rng, cnt, labels, keys, depth=0, allow_fn=True, n=None, feats=()
             out.append(['cite', rng.choice(keys)])
         elif 'idx' in feats:
             cnt.k += 1
-            out.append(['idx', cnt.k])
+            if 'idxplain' in feats:
+                out.append(['idx', cnt.k])
+            else:
+                # initial letter of the sort key, and (sometimes) a display form sort@display whose initial differs
+                ini = rng.choice('zzzzab')
+                disp = rng.choice('qzab') if rng.random() < 0.3 else None
+                out.append(['idx', cnt.k, ini, disp])
         else:
             out.append(['w', cnt.word()])
     return out
 
 
-def gen_doc(rng, size=None, feats=None, label_style='plain'):
+def clash_pool(template):
+    """labels that meet file names: the static names of the template (extension dropped, $jobname expanded) and names the usual
+    fail-safe alternatives issue (sect0001 ...): the generator must move on to another name for the second claimant"""
+    head = template.split('[')[0]
+    words = head.split()
+    if words and '[' in template and not head.endswith((' ', '\t')):
+        words = words[:-1]                       # a prefix glued to the bracket is not a static name
+    pool = []
+    for w in words:
+        w = w.replace('$jobname', 'job').replace('${jobname}', 'job')
+        if '$' in w:
+            continue
+        pool.append(w[:-5] if w.endswith('.html') else w)
+    return [pool, ['sect0001', 'sect0002', 'sect1', 'sect2', 'node001', 'sect01', 's01']]
+
+
+def gen_doc(rng, size=None, feats=None, label_style='plain', clash=None):
     """a random document; labels are planned first so that references can point forwards and backwards"""
     cls = rng.choice(['article', 'article', 'book'])
     cmds = SEC_CMDS[cls]
@@ -103,14 +125,22 @@ def gen_doc(rng, size=None, feats=None, label_style='plain'):
         d = max(top, min(len(cmds) - 1, d + step))
     nsec = len(plan)
 
+    statics, issued = [list(x) for x in (clash or [[], []])]
+    rng.shuffle(statics)
+    rng.shuffle(issued)
+
     def mklabel(prefix):
         cnt.l += 1
+        if prefix == 's' and statics and rng.random() < 0.7:
+            return statics.pop()
+        if prefix == 's' and issued and rng.random() < 0.3:
+            return issued.pop()
         if label_style == 'plain':
             return '%s%d' % (prefix, cnt.l)
         if label_style == 'punct':
             return rng.choice(['%s:%d', '%s.%d', 'a %s %d', '%s_%d-x', '%s/%d']) % (prefix, cnt.l)
         return '%s%d' % (prefix, cnt.l)
-    sec_labels = [mklabel('s') if rng.random() < 0.6 else None for _ in range(nsec)]
+    sec_labels = [mklabel('s') if rng.random() < (0.8 if clash else 0.6) else None for _ in range(nsec)]
     nbib = rng.randint(1, 3) if 'cite' in feats else 0
     keys = ['bk%d' % (i + 1) for i in range(nbib)]
     labels = [l for l in sec_labels if l]
@@ -180,7 +210,9 @@ def pr_inlines(ins):
         elif k == 'cite':
             out.append('\\cite{%s}' % x[1])
         elif k == 'idx':
-            out.append('\\index{zk%dx}' % x[1])
+            ini = x[2] if len(x) > 2 else 'z'
+            disp = x[3] if len(x) > 3 else None
+            out.append('\\index{%sk%dx%s}' % (ini, x[1], '@%sd%dx' % (disp, x[1]) if disp else ''))
         else:
             raise ValueError(x)
     return ' '.join(out)
@@ -200,6 +232,9 @@ def source(case):
             out.append(s)
         elif k == 'par':
             out.append(pr_inlines(it[1]))
+            out.append('')
+        elif k == 'rawpar':
+            out.append(it[1])
             out.append('')
         elif k == 'quote':
             out.append('\\begin{quote}%s\\end{quote}' % pr_inlines(it[1]))
@@ -237,6 +272,8 @@ TEMPLATES = [
     'index [$id-$num, $name$num]',
     'top [${id}_x, $title(3), s$num(2)]',
     'index [$ref-$name, $name-$num]',
+    'index.html toc.html [$id, sect$num(4)]',        # the extension spelled in the template
+    'index toc [$id.html, sect$num(4)]',
 ]
 SINGLE_TEMPLATES = ['single', '$jobname', 'all$num(3)', 'book.html']
 BAD_CHARS = [None, None, None, ('zt', '-'), ('sx', '_'), (': #$%^&*!~`"\'=?/{}[]()|<>;\\,.0123', '-'), ('', '-'), ('-', ''), ('x1', 'yy')]
@@ -255,13 +292,43 @@ def gen_cfg(rng, renderer=None, split=None, template=None):
     return cfg
 
 
+def gen_twin_doc(rng, tail=None):
+    """two file-producing units that are literally identical (same title, same unmarked text, no label), the second one followed only
+    by deeper units: navigation must tell them apart by identity, not by structural equality"""
+    cnt = Counter()
+
+    def sec(cmd, label=None):
+        cnt.t += 1
+        return ['sec', cmd, 0, [cnt.t], label]
+
+    def par():
+        return ['par', [['w', cnt.word()] for _ in range(rng.randint(1, 3))]]
+    twin_t = 900 + rng.randint(0, 50)
+    twin = [['sec', 'subsection', 0, [twin_t], None], ['rawpar', 'Left to the reader.']]
+    items = [par(), sec('section', 's1'), par()]
+    for _ in range(rng.randint(0, 2)):
+        items += [sec('subsection'), par()]
+    items += twin
+    for _ in range(rng.randint(0, 1)):
+        items += [sec('subsection'), par()]
+    items += [sec('section'), par()]
+    for _ in range(rng.randint(0, 1)):
+        items += [sec('subsection'), par()]
+    items += twin
+    for _ in range(rng.randint(1, 3)):
+        items += [sec('subsection'), par()]
+    if (rng.random() < 0.3) if tail is None else tail:
+        items += [sec('section'), par()]
+    return {'cls': 'article', 'items': items}
+
+
 def shared_cases(seed, tier, boost=1):
     """the case list shared by C13 and C14 (so that both use the same renders)"""
     rng = random.Random('render-docs-%d' % seed)
     out = []
     quick = tier == 'quick'
     # 1. exhaustive over split levels on small documents, default template, all three renderers
-    for i in range(6 if quick else 30):
+    for i in range(5 if quick else 30):
         doc = gen_doc(rng, size=rng.randint(3, 6))
         rname = ['html5', 'xhtml', 'html5min'][i % 3]
         for split in range(-10, 7):
@@ -269,13 +336,32 @@ def shared_cases(seed, tier, boost=1):
             cfg.update(bad=None, base='', crumbs=False, localtoc=False)
             out.append(('split-levels', {'doc': doc, 'cfg': cfg}))
     # 2. structured random stream: everything varies
-    for i in range((250 if quick else 3000) * boost):
+    for i in range((200 if quick else 3000) * boost):
         doc = gen_doc(rng, label_style='punct' if rng.random() < 0.15 else 'plain')
         out.append(('random', {'doc': doc, 'cfg': gen_cfg(rng)}))
     # 3. single-file templates
     for i in range((30 if quick else 300) * boost):
         doc = gen_doc(rng)
         out.append(('single-file', {'doc': doc, 'cfg': gen_cfg(rng, template=rng.choice(SINGLE_TEMPLATES))}))
+    # 3b. labels that equal file names: static names of the template in force, names issued to earlier units
+    for i in range((36 if quick else 400) * boost):
+        cfg = gen_cfg(rng, split=rng.choice([0, 1, 1, 2, 2, 3]),
+                      template=rng.choice([TEMPLATES[0], TEMPLATES[0], TEMPLATES[2], TEMPLATES[5], TEMPLATES[6], TEMPLATES[8], TEMPLATES[10], TEMPLATES[11]]))
+        if i % 3:
+            cfg['bad'] = None
+        doc = gen_doc(rng, size=rng.randint(2, 6), clash=clash_pool(cfg['filename']))
+        out.append(('name-clash', {'doc': doc, 'cfg': cfg}))
+    # 3c. twin sections (identical title and content)
+    for i in range((12 if quick else 120) * boost):
+        cfg = gen_cfg(rng, renderer=rng.choice(['html5', 'html5', 'xhtml']), split=rng.choice([2, 2, 2, 1, 3]), template=TEMPLATES[0])
+        cfg.update(tocdepth=rng.choice([1, 1, 1, 2, 3]), tocnonfiles=False, bad=None)
+        tail = None
+        if i % 3 != 2:
+            # the second twin is followed to the end only by files that neither the table of contents nor a local one lists:
+            # they hang on the next/prev chain alone
+            cfg.update(renderer='html5', split=2, tocdepth=1, localtoc=False, crumbs=False)
+            tail = False
+        out.append(('twins', {'doc': gen_twin_doc(rng, tail), 'cfg': cfg}))
     # 4. malformed: templates that cannot name every file, labels that collide after character substitution, odd structure
     for i in range((30 if quick else 300) * boost):
         r = rng.random()
